@@ -24,8 +24,11 @@ package signjar
 //@   requires jd.inz != nil && forall(i, 0, len(jd.inz.File), jd.inz.File[i] != nil)
 //@   modifies nothing
 //@
+//@ extern (*JarDigest).insertSignature(jd, cert, alias, sf, sig)
+//@
 //@ func (*JarDigest).insertSignature
 //@   property C03 C08
+//@   standalone
 //@   requires len(alias) <= 10000 && len(jarMagic) <= 65535
 //@   requires @every_member_listed_once forall(i, 0, len(jd.inz.File), forall(j, 0, len(jd.inz.File), i != j ==> jd.inz.File[i] != jd.inz.File[j]))
 //@   requires cert != nil && jd.inz != nil && forall(i, 0, len(jd.inz.File), jd.inz.File[i] != nil && zipslicer.fileOK(jd.inz.File[i]))
@@ -151,3 +154,15 @@ package signjar
 //@   on call hashFile(_, _, _) ret (e): bad = bad || e != nil
 //@   ensures @no_member_digest_mismatch_is_tolerated ret0 == nil ==> !bad
 //@   loop 1 sig "for filename, keys := range parsed.Files" invariant !bad
+//@
+//@ func (*JarDigest).Sign
+//@   property C05 C03
+//@   standalone
+//@   requires len(jd.Manifest) > 0 && 1 <= jd.Hash && jd.Hash <= 19 && cert != nil
+//@   ghost sfG []byte = nil
+//@   ghost signedOK bool = false
+//@   on call DigestManifest(m, h, so, v2) ret (b, e): sfG = b
+//@   before call DigestManifest(m, h, so, v2): assert @signature_file_is_derived_from_the_manifest_that_will_be_written sameslice(m, jd.Manifest) && h == jd.Hash && so == sectionsOnly && v2 == apkV2
+//@   before call (*pkcs7.SignatureBuilder).SetContentData(_, d): assert @the_signature_file_is_what_gets_signed sameslice(d, sfG)
+//@   on call (*pkcs7.SignatureBuilder).Sign(_) ret (psd, e): signedOK = (e == nil)
+//@   before call (*JarDigest).insertSignature(j, c, a, sfile, blob): assert @the_signed_signature_file_goes_into_the_archive_under_the_signers_names signedOK && j == jd && c == cert.Leaf && a == alias && sameslice(sfile, sfG)
